@@ -496,7 +496,9 @@ impl Check for C04 {
             let flag = P::Switch(Names::short(c));
             let arg = P::arg(Names::short(c), Ty::Os).opt();
             let sub = P::cmd("cmd", Opts::new(P::Seq(vec![arg.clone()]))).opt();
-            out.push(serde_json::to_value(Unit { opts: Opts::new(P::Seq(vec![flag.clone(), sub])), len: 2, family: format!("nested-adjacent:-{c} -{c}{c} -{c}=v cmd v", c = c) }).unwrap());
+            out.push(serde_json::to_value(Unit { opts: Opts::new(P::Seq(vec![flag.clone(), sub.clone()])), len: 2, family: format!("nested-adjacent:-{c} -{c}{c} -{c}=v cmd v", c = c) }).unwrap());
+            // the ambiguous name behind names that are flags only, inside one block
+            out.push(serde_json::to_value(Unit { opts: Opts::new(P::Seq(vec![P::Switch(Names::short('b')), flag.clone(), sub])), len: 3, family: format!("nested-adjacent:-b -{c} -b{c} -{c}b -bb{c}q -b{c}v cmd v", c = c) }).unwrap());
             out.push(serde_json::to_value(Unit { opts: Opts::new(P::Seq(vec![P::Alt(vec![P::Map(arg.bx(), "a".into()), P::Map(P::ReqFlag(Names::short(c)).bx(), "f".into())])])), len: 3, family: format!("nested-adjacent:-{c} -{c}{c} -{c}v v", c = c) }).unwrap());
         }
         // families of the other properties
